@@ -2,6 +2,7 @@ package main
 
 import (
 	"os"
+	"reflect"
 	"simrt"
 
 	"context"
@@ -13,7 +14,25 @@ import (
 // keepUp: the callback queue can never have overflowed in this run. The bound
 // is (events that may have been submitted so far) - (events the callback
 // goroutine has dequeued), sampled after every step.
-func (r *Run) keepUp() bool { return r.maxQueue <= 8 }
+func (r *Run) keepUp() bool { return r.maxQueue <= r.keepBound() }
+
+// queueCap: the capacity of the library's callback queue, observed on the
+// Dials value of this run (64 on the pinned tree; a tree that changes it is
+// judged against what it actually has). keepBound: the occupancy bound below
+// which no event can have been dropped, an eighth of it.
+func (r *Run) queueCap() int {
+	if r.qcap == 0 {
+		r.qcap = 64
+		if r.d != nil {
+			if f := reflect.ValueOf(r.d).Elem().FieldByName("cbch"); f.IsValid() && f.Kind() == reflect.Chan && f.Cap() > 0 {
+				r.qcap = f.Cap()
+			}
+		}
+	}
+	return r.qcap
+}
+
+func (r *Run) keepBound() int { return r.queueCap() / 8 }
 
 func (r *Run) noteQueue() {
 	produced := 0
@@ -66,11 +85,11 @@ func (r *Run) keptUpSince(step int) bool {
 			cur = p.bound
 			continue
 		}
-		if p.bound > 8 {
+		if p.bound > r.keepBound() {
 			return false
 		}
 	}
-	return cur <= 8
+	return cur <= r.keepBound()
 }
 
 // cancelStep: the step at which the Config context was cancelled while the
@@ -126,9 +145,12 @@ func (r *Run) isEnableVerify(v VerifyRec) bool {
 
 // ---- C04 ----
 
-func (r *Run) verifiedBefore(ptr *CfgCore, step int) bool {
+// verifiedBefore: Verify accepted this very config, or one with exactly the
+// same content (an implementation may verify a candidate and publish a copy
+// of it), at or before step.
+func (r *Run) verifiedBefore(in Install, step int) bool {
 	for _, v := range r.verifies {
-		if v.Ptr == ptr && !v.Failed && v.Step <= step {
+		if !v.Failed && v.Step <= step && (v.Ptr == in.Ptr || v.FP == in.FP) {
 			return true
 		}
 	}
@@ -162,7 +184,7 @@ func (r *Run) oracleC04() {
 		if !in.Valid {
 			r.fail("C04.visible-unverified", "version serial=%d (stamps %v) became visible at step %d but does not satisfy Verify (%s)", in.Serial, in.Stamps, in.Step, in.FP)
 		}
-		if !r.verifiedBefore(in.Ptr, in.Step) {
+		if !r.verifiedBefore(in, in.Step) {
 			r.fail("C04.visible-unverified", "version serial=%d (stamps %v) became visible at step %d without a successful Verify call on it before that step", in.Serial, in.Stamps, in.Step)
 		}
 	}
@@ -175,7 +197,7 @@ func (r *Run) oracleC04() {
 			}
 			if cur := r.currentAt(op.Return); cur >= 0 {
 				in := r.installs[cur]
-				if !in.Valid || !r.verifiedBefore(in.Ptr, op.Return) {
+				if !in.Valid || !r.verifiedBefore(in, op.Return) {
 					r.fail("C04.visible-unverified", "EnableVerification returned successfully at step %d, but the config installed at that moment (serial %d, stamps %v) had not passed Verify (valid=%v)", op.Return, in.Serial, in.Stamps, in.Valid)
 				}
 			}
@@ -213,11 +235,16 @@ func (r *Run) oracleC04() {
 	// (c) rejected stacks
 	rejected := map[[4]uint64]VerifyRec{}
 	lastRejection := map[[4]uint64]int{}
+	seenCandidate := map[*CfgCore]bool{}
 	rejections := map[[4]uint64]int{} // the same stack may be re-built (a value reported again) and rejected again
 	for _, v := range r.verifies {
 		if !v.Failed || r.isEnableVerify(v) {
 			continue
 		}
+		if seenCandidate[v.Ptr] {
+			continue // Verify called again on the same candidate: one rejection
+		}
+		seenCandidate[v.Ptr] = true
 		if _, seen := rejected[v.Stamps]; !seen {
 			rejected[v.Stamps] = v
 		}
@@ -252,10 +279,10 @@ func (r *Run) oracleC04() {
 			if !errors.Is(cb.Err, errVerify) {
 				r.fail("C04.on-watched-error", "OnWatchedError for the rejected stack %v got error %v, not the Verify error", v.Stamps, cb.Err)
 			}
-			if cb.Old != r.installs[cur].Ptr && rejections[v.Stamps] == 1 {
+			if cb.Old != r.installs[cur].Ptr && rejections[v.Stamps] == 1 && (cb.Old == nil || render(cb.Old) != r.installs[cur].FP) {
 				r.fail("C04.on-watched-error", "OnWatchedError for the rejected stack %v got oldConfig %p, the current config was %p (serial %d)", v.Stamps, cb.Old, r.installs[cur].Ptr, r.installs[cur].Serial)
 			}
-			if cb.New != v.Ptr && rejections[v.Stamps] == 1 {
+			if cb.New != v.Ptr && rejections[v.Stamps] == 1 && (cb.New == nil || render(cb.New) != v.FP) {
 				r.fail("C04.on-watched-error", "OnWatchedError for the rejected stack %v got newConfig %p, the rejected config was %p", v.Stamps, cb.New, v.Ptr)
 			}
 			if cb.Enter < v.Step {
@@ -769,7 +796,7 @@ func (r *Run) oracleC09() {
 	if firstOK != 0 && indeterminateFrom == 0 {
 		// from then on every re-stack is verified
 		for _, in := range r.installs {
-			if in.Step > firstOK && !r.verifiedBefore(in.Ptr, in.Step) {
+			if in.Step > firstOK && !r.verifiedBefore(in, in.Step) {
 				r.fail("C09.atomic-switch", "version serial=%d was installed at step %d, after EnableVerification had succeeded at step %d, without being verified", in.Serial, in.Step, firstOK)
 			}
 		}
@@ -808,12 +835,12 @@ func (r *Run) oracleC09() {
 // suppressionClauses: global callbacks are withheld exactly while the delay is
 // in force and the suppress option is set (delayedAt: delayed?, known?).
 func (r *Run) suppressionClauses(delayedAt func(step int) (bool, bool)) {
-	if r.maxQueue > 64 {
+	if r.maxQueue > r.queueCap() {
 		r.probe("callback-queue-may-have-overflowed")
 		if dbgQ {
 			first, last := 0, 0
 			for _, p := range r.queueSeries {
-				if p.bound > 64 {
+				if p.bound > r.queueCap() {
 					if first == 0 {
 						first = p.step
 					}
